@@ -12,8 +12,8 @@ SPEC_DEV = ["D_COMMA_JOIN_DROPS_JOINED", "D_SCALAR_SUBQUERY_BLIND", "D_HAVING_SU
 SPEC_DEV2 = ["D_ON_SUBQUERY_BLIND", "D_NESTED_SET_OPERATION_BLIND"]      # need the clauses of NEST_CLAUSES to fire
 ALL_CLAUSES = {"where", "isub", "having", "union"}
 PAREN_CLAUSES = {"where", "union", "paren"}
-NEST_CLAUSES = {"union", "on", "ubranch"}
-EVERY_CLAUSE = {"where", "isub", "having", "union", "paren", "on", "ubranch"}
+NEST_CLAUSES = {"union", "on", "ubranch", "where", "where2"}
+EVERY_CLAUSE = {"where", "isub", "having", "union", "paren", "on", "ubranch", "where2"}
 INVS = ["MachineTablesExact", "LocalsNeverReported", "NoopReportsNothing", "DeviationsAccountedFor", "DefaultEqualsQualified", "EmitCase"]
 
 
@@ -68,11 +68,15 @@ def generate(chk, quick, seed):
     r = chk.tlc("Stmt", cfg(chk, "genn", 8 if quick else 9, kinds=("insert",), known=ALL_DEV, emit=True, clauses=NEST_CLAUSES, tbl=("a", "b"), ctes=("x",),
                             schemas=("none",), maxcte=0),
                 "generate: subqueries in ON conditions, nested set operations", workers=1, coverage=False, timeout=5000)
-    cases += [c for c in r.cases("CASE") if any(e["e"] in ("on", "ubranch") for e in c["prog"])]
+    cases += [c for c in r.cases("CASE") if any(e["e"] in ("on", "ubranch") for e in c["prog"]) or sum(1 for e in c["prog"] if e["e"] == "where") >= 2]
     r = chk.tlc("Stmt", cfg(chk, "genw", 8, kinds=("update", "merge", "delete"), known=ALL_DEV, emit=True, clauses={"where"}, tbl=("a",), ctes=("x",),
                             maxrel=2),
                 "generate: WITH in front of UPDATE / MERGE / DELETE", workers=1, coverage=False, timeout=5000)
     cases += [c for c in r.cases("CASE") if any(e["e"] == "cte" for e in c["prog"])]
+    r = chk.tlc("Stmt", cfg(chk, "genw2", 10, kinds=("insert",), known=ALL_DEV, emit=True, clauses={"where", "where2"}, tbl=("a", "b"), ctes=("x",),
+                            schemas=("none",), maxcte=0, maxrel=1, maxdepth=1),
+                "generate: subqueries on both sides of a comparison in WHERE", workers=1, coverage=False, timeout=5000)
+    cases += [c for c in r.cases("CASE") if sum(1 for e in c["prog"] if e["e"] == "where") >= 2]
     n_exh = len(cases)
     r = chk.tlc("Stmt", cfg(chk, "gensim", 16, known=ALL_DEV, emit=True, maxdepth=4, maxrel=3, maxcte=2, invariants=["EmitCase"], clauses=EVERY_CLAUSE),
                 "generate: simulated deeper programs (depth 4)", workers=1, coverage=False,
